@@ -14,13 +14,19 @@ def build(m, lit_delays=False, order=(0, 1, 2)):
     from pyrates import OperatorTemplate, NodeTemplate, CircuitTemplate
     eqs = []
     uses_m = any('m' in e.replace('sigmoid', '').replace('sum', '') and (' m ' in f' {e} ' or 'm *' in e or '* m' in e) for e in m['eqs'])
+    uses_q = any(' q' in f' {e} ' or '+ q' in e for e in m['eqs'])
+    uses_m = uses_m or uses_q
     if uses_m:
         eqs.append('m = z * w')
+    if uses_q:
+        eqs.append('q = m * m + sin(z)')
     des = [f"d/dt * x = {m['eqs'][0]}", f"d/dt * z = {m['eqs'][1]}", f"d/dt * w = {m['eqs'][2]}"]
     eqs += [des[i] for i in order]       # the order of the equations fixes the layout of the state vector
     variables = {'x': f"output({Y0['x']})", 'z': f"variable({Y0['z']})", 'w': f"variable({Y0['w']})", 'p': PAR['p'], 'g': PAR['g']}
     if uses_m:
         variables['m'] = 'variable(0.0)'
+    if uses_q:
+        variables['q'] = 'variable(0.0)'
     for d in m['delays']:
         if lit_delays:      # the delay written as a numeric literal instead of a parameter
             eqs = [e.replace(f'tau{d}', repr(TAU[d])) for e in eqs]
@@ -116,7 +122,7 @@ def run(ctx):
                 'with the evaluated trees and with central differences of the generated vector field')
     ctx.assumptions += ['elementary functions are evaluated by the harness with their NumPy meaning; tolerance 1e-9 (trees) / 1e-5 (differences)',
                         'scalar models, vectorize=False, default backend; DFDU/DFDP of the auto-07p export are parsed in C18 only']
-    expr = 'ModelSet(1..18, {3, 8, 13, 18}, {5, 10}, {12, 16})' if tier == 'quick' else 'ModelSet(1..18, 1..18, {5, 10, 17}, {12, 16, 7})'
+    expr = 'ModelSet(1..19, {3, 8, 13, 18, 19}, {5, 10}, {12, 16})' if tier == 'quick' else 'ModelSet(1..19, 1..19, {5, 10, 17}, {12, 16, 7})'
     c = tlc.cfg(constants={}, invariants=['DerivativeExactOnPolynomials', 'HistoryColumnsAreStatePositions', 'Export'])
     r = tlc.run_tlc('Jacobian', c, workers=8, defs=dict(Models=expr), timeout=3000)
     ctx.add_tlc('design', r, 'derivative trees; D exact on polynomial parts')
